@@ -75,13 +75,13 @@ type PDUSpec struct {
 	Cksum       bool   `json:"cksum,omitempty"`
 	ISNbr       bool   `json:"isnbr,omitempty"`
 	// hello + lsp
-	Protos []uint8  `json:"protos,omitempty"`
-	Addrs  int      `json:"addrs,omitempty"` // number of IPv4 interface addresses
+	Protos []uint8 `json:"protos,omitempty"`
+	Addrs  int     `json:"addrs,omitempty"` // number of IPv4 interface addresses
 	// IfPfxs, when set, is the explicit interface prefix list (len == Addrs): several prefix lengths, and the
 	// same address more than once (192.0.2.1/24 and 192.0.2.1/32 on one interface, one address shared by
 	// unnumbered interfaces)
 	IfPfxs []IfPfxSpec `json:"if_pfxs,omitempty"`
-	Areas  [][]byte `json:"areas,omitempty"`
+	Areas  [][]byte    `json:"areas,omitempty"`
 	// lsp
 	PN, Frag  uint8     `json:"-"`
 	Seq       uint32    `json:"seq,omitempty"`
@@ -1072,9 +1072,9 @@ func Mutate(rng *rand.Rand, corpus [][]byte) ([]byte, string) {
 // BigLSPCase: a server with many interfaces / addresses / Up adjacencies; the local LSP and the
 // hellos it really emits are judged (C30).
 type BigLSPCase struct {
-	Ifaces int `json:"ifaces"` // number of interfaces
-	Extra  int `json:"extra"`  // additional addresses per interface
-	Up     int `json:"up"`     // interfaces with an Up neighbor
+	Ifaces int `json:"ifaces"`        // number of interfaces
+	Extra  int `json:"extra"`         // additional addresses per interface
+	Up     int `json:"up"`            // interfaces with an Up neighbor
 	Dup    int `json:"dup,omitempty"` // addresses per interface that are configured twice (as /31 or /24 and as /32)
 }
 
